@@ -21,7 +21,7 @@ class AssignPages(Contract):
 
     def setup(self, c):
         meta = c.param("meta_df", T.Frame(total_rows=T.Int, is_group_start=T.Bool, is_subline_start=T.Bool, page=T.Int,
-                                          row_index=T.Int, data_rows=T.Int, pageby_header_rows=T.Int,
+                                          row_index=T.Int, data_rows=T.Int, pageby_header_rows=T.Int, continuation_header_rows=T.Int,
                                           subline_header_rows=T.Int, column_header_rows=T.Int))
         add = c.param("additional_rows_per_page", T.Int)
         newp = c.param("new_page", T.Bool)
@@ -33,18 +33,25 @@ class AssignPages(Contract):
         k = z3.Int("k")
         c.requires("heights_pos", ForAll([k], Implies(And(0 <= k, k < n), Select(h, k) >= 1)))
         c.requires("nrow_pos", nrow >= 1)
+        # The first row of a page sits under the heading rows of ALL its page_by levels (continuation_header_rows) instead of the ones
+        # budgeted for a mid-page group start (pageby_header_rows): top(k) is that extra cost; calculate_row_metadata (unit RowMetadata)
+        # guarantees continuation >= group-start rows, and equality on row 0.
+        pb, cont = fr.cols["pageby_header_rows"], fr.cols["continuation_header_rows"]
+        c.requires("page_top_headings_cover_group_start_headings", ForAll([k], Implies(And(0 <= k, k < n), Select(cont, k) >= Select(pb, k))))
         # ghost prefix sums S[0]=0, S[k+1]=S[k]+h[k]
         S = z3.Array("S", z3.IntSort(), z3.IntSort())
         c.requires("ghost_S_def", And(Select(S, 0) == 0, ForAll([k], Implies(And(0 <= k, k < n), Select(S, k + 1) == Select(S, k) + Select(h, k)))))
         c.ghost("first", z3.Array("first0", z3.IntSort(), z3.IntSort()))
         c.ghost("last", z3.Array("last0", z3.IntSort(), z3.IntSort()))
-        c.v.update(n=n, h=h, S=S, nrow=nrow, add=add, newp=newp, cols0=dict(fr.cols),
+        top = lambda f: If(f > 0, Select(cont, f) - Select(pb, f), 0)        # extra rows when row f opens a page (never for the first page)
+        c.v.update(n=n, h=h, S=S, nrow=nrow, add=add, newp=newp, cols0=dict(fr.cols), top=top,
                    avail=If(nrow - add >= 1, nrow - add, 1))
 
     # ---- loop 0: for i, row in enumerate(rows)
     def _inv(self, c_v):
         def inv(v):
             n, h, S, newp, avail, cols0 = (c_v[x] for x in ("n", "h", "S", "newp", "avail", "cols0"))
+            top = c_v["top"]
             cols = v.obj(v.rows).cols
             page = cols["page"]
             cp, cr, i = v.current_page, v.current_rows, v.i
@@ -57,7 +64,7 @@ class AssignPages(Contract):
                 "avail": v.available_rows == avail,
                 "start": Implies(i == 0, And(cp == 1, cr == 0)),
                 "cur": Implies(pos, And(cp >= 1, first[1] == 0, 0 <= first[cp], first[cp] <= i - 1,
-                                        cr == S[i] - S[first[cp]], cr > 0)),
+                                        cr == S[i] - S[first[cp]] + top(first[cp]), cr > 0)),
                 "closed": Implies(pos, ForAll([p], Implies(And(1 <= p, p < cp),
                                                           And(0 <= first[p], first[p] <= last[p], first[p + 1] == last[p] + 1, last[p] < i)))),
                 "memb": Implies(pos, ForAll([k], Implies(And(0 <= k, k < i),
@@ -66,13 +73,13 @@ class AssignPages(Contract):
                 "closedmemb": Implies(pos, ForAll([p, k], Implies(And(1 <= p, p < cp, first[p] <= k, k <= last[p]), page[k] == p))),
                 "curmemb": Implies(pos, ForAll([k], Implies(And(first[cp] <= k, k < i), page[k] == cp))),
                 "budget_closed": Implies(pos, ForAll([p], Implies(And(1 <= p, p < cp),
-                                                                 Or(S[last[p] + 1] - S[first[p]] <= avail, first[p] == last[p])))),
+                                                                 Or(S[last[p] + 1] - S[first[p]] + top(first[p]) <= avail, first[p] == last[p])))),
                 "budget_cur": Implies(pos, Or(cr <= avail, first[cp] == i - 1)),
                 "forced": Implies(pos, ForAll([k], Implies(And(0 <= k, k < i, frc(k)), first[page[k]] == k))),
                 "tight": Implies(pos, ForAll([k], Implies(And(0 <= k, k < i, first[page[k]] != k),
-                                                         And(Not(frc(k)), S[k + 1] - S[first[page[k]]] <= avail)))),
+                                                         And(Not(frc(k)), S[k + 1] - S[first[page[k]]] + top(first[page[k]]) <= avail)))),
                 "exact": Implies(pos, ForAll([p], Implies(And(2 <= p, p <= cp),
-                                                         Or(frc(first[p]), S[first[p]] - S[first[p - 1]] + h[first[p]] > avail)))),
+                                                         Or(frc(first[p]), S[first[p]] - S[first[p - 1]] + top(first[p - 1]) + h[first[p]] > avail)))),
                 "frame": And(*[cols[cn] == cols0[cn] for cn in cols0 if cn != "page"]),
             }
         return inv
@@ -100,6 +107,7 @@ class AssignPages(Contract):
 
     def ensures(self, c, out):
         n, h, S, newp, avail, cols0 = (c.v[x] for x in ("n", "h", "S", "newp", "avail", "cols0"))
+        top = c.v["top"]
         res = out.state.obj(out.value)
         cols = res.cols
         k, p = z3.Int("k"), z3.Int("p")
@@ -115,12 +123,13 @@ class AssignPages(Contract):
             "page_iff_interval": ForAll([p, k], Implies(And(1 <= p, p <= m, 0 <= k, k < n),
                                                        (page[k] == p) == And(first[p] <= k, k <= last[p]))),
             "page_range": ForAll([k], Implies(And(0 <= k, k < n), And(1 <= page[k], page[k] <= m))),
-            "budget": ForAll([p], Implies(And(1 <= p, p <= m), Or(S[last[p] + 1] - S[first[p]] <= avail, first[p] == last[p]))),
+            # a page's rows: the budgeted rows of its data rows plus the page-top headings of its first row
+            "budget": ForAll([p], Implies(And(1 <= p, p <= m), Or(S[last[p] + 1] - S[first[p]] + top(first[p]) <= avail, first[p] == last[p]))),
             "break_only_if_required": ForAll([p], Implies(And(2 <= p, p <= m),
-                                                          Or(frc(first[p]), S[first[p]] - S[first[p - 1]] + h[first[p]] > avail))),
+                                                          Or(frc(first[p]), S[first[p]] - S[first[p - 1]] + top(first[p - 1]) + h[first[p]] > avail))),
             "forced_break_always": ForAll([k], Implies(And(0 <= k, k < n, frc(k)), first[page[k]] == k)),
             "no_break_unless_required": ForAll([k], Implies(And(0 <= k, k < n, first[page[k]] != k),
-                                                            And(Not(frc(k)), S[k + 1] - S[first[page[k]]] <= avail))),
+                                                            And(Not(frc(k)), S[k + 1] - S[first[page[k]]] + top(first[page[k]]) <= avail))),
             "frame_other_columns": And(*[cols[cn] == cols0[cn] for cn in cols0 if cn != "page"]),
             "same_height": res.n == n,
         }
